@@ -5,6 +5,7 @@ package main
 // implementation's canonical observables.  Monitors hook into transaction and block events.
 
 import (
+	upgradetypes "github.com/cosmos/cosmos-sdk/x/upgrade/types"
 	"bytes"
 	"encoding/base64"
 	"encoding/json"
@@ -86,6 +87,8 @@ type Exec struct {
 	Node     *nodeState // node profile: twin replica, commit hashes, background readers
 	qHeight  int64      // height of the query being served (QH), 0 = latest
 	WantNode bool
+	pendingUpgrade string
+	upgradeHeight  int64
 	WantConc int
 }
 
@@ -310,7 +313,20 @@ func (x *Exec) Run(lines []string) {
 		case "BLOCK":
 			n, err := strconv.ParseInt(f[1], 10, 64)
 			must(err)
-			x.C.BeginBlock(time.Unix(0, n).UTC())
+			begin := func() {
+				defer func() {
+					if e := recover(); e != nil {
+						x.Flag("C19-halt", fmt.Sprintf("BeginBlock at height %d panicked: %v", x.C.Height, e))
+						panic(e)
+					}
+				}()
+				x.C.BeginBlock(time.Unix(0, n).UTC())
+			}
+			if x.pendingUpgrade != "" && x.C.Height+1 == x.upgradeHeight {
+				x.upgradeBegin(begin)
+			} else {
+				begin()
+			}
 			if x.Node != nil {
 				x.Node.blk = &twinBlock{nanos: n, afterRestart: x.Node.restarted}
 			}
@@ -405,7 +421,14 @@ func (x *Exec) Run(lines []string) {
 				}
 			}
 			x.cur = nil
+		case "UPGRADE":
+			x.Out.Cmd(l, x.upgradeSchedule(f[1]))
 		case "CRASH":
+			if x.pendingUpgrade != "" && !x.C.InBlock && x.C.Height+1 == x.upgradeHeight {
+				// the old binary would have stopped at the plan height leaving upgrade-info.json for the new one
+				must(x.C.App.UpgradeKeeper.DumpUpgradeInfoToDisk(x.upgradeHeight, upgradetypes.Plan{Name: x.pendingUpgrade, Height: x.upgradeHeight}))
+				x.Stats["upgrade-info-on-disk"]++
+			}
 			x.Out.Cmd(l, x.nodeCrash())
 		case "QH":
 			h, err := strconv.ParseInt(f[1], 10, 64)
